@@ -40,7 +40,7 @@ def _d3(version):
 
 QTEXT = {"q1": "$[?@.a == $.x]", "q2": "$[?f(@.a)]", "q3": "$..[?@[?@ == $.x]]",
          "q4": "$[?match(@.s, 'a.') || search(@.s, 'a.')]", "q5": "$.k3[2]", "q6": "$[?@.a == ]", "q7": "$..s",
-         "q8": "$[?f(@.a) == 1]"}
+         "q8": "$[?f(@.a) == 1]", "q9": "$.k3[1]", "q10": "$.k3['1']"}
 
 
 class World:
@@ -227,7 +227,7 @@ def history_independence(chk: core.Check, tier: str, seed: int) -> None:
 
     jp = core.import_repo()
     rng = random.Random(seed)
-    doc = {"t": [{"s": "abc"}, {"s": "aab"}, {"s": "b"}, {"s": "xxxy"}, {"s": "zz"}, {"s": "Aa"}, {"s": 1}, {"z": 0}], "p": "a.*", "n": 2,
+    doc = {"d": {"1": 1, "0": "1", "-1": "m", "x": "0"}, "t": [{"s": "abc"}, {"s": "aab"}, {"s": "b"}, {"s": "xxxy"}, {"s": "zz"}, {"s": "Aa"}, {"s": 1}, {"z": 0}], "p": "a.*", "n": 2,
            # equal data: the same members in another order, the same number as int and float
            "u": [{"x": {"a": 1, "b": [2, {"c": 3, "d": 4}]}, "y": {"b": [2, {"d": 4, "c": 3}], "a": 1.0}}, {"x": {"a": 1}, "y": {"a": 1, "b": 2}},
                  {"x": [1, 2], "y": [1, 2, 3]}, {"x": {"a": 1, "b": 2}, "y": {"a": 2, "b": 1}}]}
@@ -237,7 +237,10 @@ def history_independence(chk: core.Check, tier: str, seed: int) -> None:
         battery += [f"$.t[?match(@.s, {lit})]", f"$.t[?search(@.s, {lit})]", f"$.t[?!match(@.s, {lit}) && @.s]"]
     battery += ["$.t[?match(@.s, $.p)]", "$.t[?search(@.s, $.p)]", "$.t[?length(@.s) > $.n]", "$.t[?@.s == $.t[0].s]", "$..[?@.s]", "$.t[*].s",
                 "$.u[?@.x == @.y]", "$.u[?@.x != @.y]", "$.u[?@.y == $.u[0].x]", "$.u[?value(@.x) == value(@.y)]",
-                "$.t[?count(@.*) == 1]", "$.t[?value(@.*) == 'b']", "$.t[1:5:2]", "$.t[?@.s < 'b']"]
+                "$.t[?count(@.*) == 1]", "$.t[?value(@.*) == 'b']", "$.t[1:5:2]", "$.t[?@.s < 'b']",
+                # an index and the member name spelled with the same digits, literals spelled alike in different roles
+                "$.t[1]", "$.t['1']", "$.d[1]", "$.d['1']", "$.d['-1', -1, '0', 0]", "$.t[-1]", "$.t['-1']", "$.t[0, '0'].s", "$.d[?@ == '1']", "$.d[?@ == 1]",
+                "$.t[?@.s == 'b']", "$.t[?@['s'] == \"b\"]", "$.t[?@.s == 'abc' || @.s == 'b']"]
     docs = [doc, dict(doc, p="[z-a]"), dict(doc, p="a{2,1}")]
     edocs = [core.enc_value(d) for d in docs]
 
